@@ -322,8 +322,10 @@ class ProgramSet(NamedItem):
         for prog in self.programs.values():
             if code_name in prog.target_pops:
                 prog.target_pops.remove(code_name)
-            if (prog.name, code_name) in self.covouts:
-                self.covouts.pop((prog.name, code_name))
+
+        for par in self.pars:
+            if (par, code_name) in self.covouts:
+                self.covouts.pop((par, code_name))
 
         del self.pops[code_name]
 
